@@ -17,7 +17,7 @@ pub struct Mon {
 impl Monitor for Mon {
     fn before(&mut self, it: &mut Interp, act: &Act, pre: &Obs, _out: &mut Outcome) -> Option<Violation> {
         self.pre_ref = None;
-        if let Act::Close { t, v, .. } = act {
+        if let Act::Close { t, v, .. } | Act::Open { t, v, .. } = act {
             self.pre_ref = pos_ref_m(&it.w, pre, *v, *t);
         }
         None
@@ -109,6 +109,40 @@ impl Monitor for Mon {
                 }
             }
         }
+        // a whole position closed by an order on the opposite side (exactly flat, or reversed into a new position) settles like a
+        // close: the owner's wallet moves by (margin + realised PnL - funding owed) - fees - the margin of what the order leaves
+        if let (Act::Open { t, v, .. }, Some(pr), true, false) = (s.act, self.pre_ref.clone(), s.res.ok, w.cfg.native) {
+            if matches!(s.effect, Effect::Closed | Effect::Reversed) {
+                if let Some(n_close) = pr.n_spot {
+                    let realised = pnl(pr.long, n_close, pr.notional);
+                    let equity = pr.equity(&realised);
+                    if !equity.is_neg() {
+                        out.count("closed_by_opposite_order_checks");
+                        let trader = &w.traders[*t];
+                        let fees_paid: u128 = s.res.xfers.iter().filter(|x| &x.from == trader && (x.to == w.fund.as_str() || x.to == w.fee_pool.as_str())).map(|x| x.amount).sum();
+                        let kept = S::pos(s.post.pos[*v][*t].as_ref().map(|p| p.margin.u128()).unwrap_or(0));
+                        let exp = equity.sub(&S::pos(fees_paid)).sub(&kept);
+                        let obs = S::pos(s.post.bal[*t]).sub(&S::pos(s.pre.bal[*t]));
+                        if !pr.funding.is_zero() && !realised.is_zero() {
+                            self.interesting += 1;
+                        }
+                        if obs != exp {
+                            return Some(
+                                Violation::new(
+                                    "closed_by_opposite_order_payout",
+                                    format!(
+                                        "{:?} by an opposite order: wallet moved by {} but (margin {} + realised pnl {} - funding owed {}) {} - fees {} - margin of what remains {} = {}",
+                                        s.effect, obs, pr.margin, realised, pr.funding, equity, fees_paid, kept, exp
+                                    ),
+                                )
+                                .with("effect", format!("{:?}", s.effect))
+                                .with("funding_zero", pr.funding.is_zero()),
+                            );
+                        }
+                    }
+                }
+            }
+        }
         // trader-initiated actions never lower the fund by more than the recorded prepaid bad debt
         if s.res.ok && matches!(s.act, Act::Open { .. } | Act::Close { .. } | Act::Deposit { .. } | Act::Withdraw { .. }) {
             let i = w.idx_fund();
@@ -141,6 +175,8 @@ impl Monitor for Mon {
 
 pub fn prop() -> HistProp {
     let mut w = Weights::trading();
+    // funding drains: the oracle is set so that the next settlement consumes about half / all / several times a holder's margin
+    w.drain = 3;
     w.close = 22;
     w.funding = 10;
     w.block = 12;
@@ -150,6 +186,8 @@ pub fn prop() -> HistProp {
     w.squeeze = 3;
     // somebody takes the other side of the whole net position: an exactly balanced market with open positions
     w.balance = 4;
+    // a run of funding periods settled one after the other (the per-market list of cumulative fractions grows long)
+    w.burst = 2;
     HistProp {
         id: "C04",
         level: "exploration",
